@@ -61,6 +61,18 @@ def ang_add(a, b, sign):
             return None if f != 0 else Fraction(0)
         return f
 
+    def const_rad(x):
+        if isinstance(x, (SV, bool)):
+            return None
+        try:
+            import math
+            d = math.degrees(float(x))
+        except Exception:
+            return None
+        f = Fraction(d).limit_denominator(5040)
+        return f if abs(float(f) - d) < 1e-9 else None
+
+
     if aa is not None and bb is not None:
         if aa.unit != bb.unit:
             return None
@@ -70,8 +82,12 @@ def ang_add(a, b, sign):
         return Ang(lin, aa.const + sign * bb.const, aa.unit)
     if aa is not None:
         c = const_of(b, aa.unit)
+        if c is None and aa.unit == "rad":
+            c = const_rad(b)
         return None if c is None else Ang(aa.lin, aa.const + sign * c, aa.unit)
     c = const_of(a, bb.unit)
+    if c is None and bb.unit == "rad":
+        c = const_rad(a)
     if c is None:
         return None
     return Ang({k: sign * v for k, v in bb.lin.items()}, c + sign * bb.const, bb.unit)
@@ -214,11 +230,21 @@ def deg2rad(x):
     return r
 
 
+def deg_term(ang):
+    """exact value in degrees of an angle form: sum k_i * atom_i + const  (atom constants hold degrees)"""
+    t = z3.RealVal(ang.const)
+    for a, k in sorted(ang.lin.items()):
+        t = t + z3.RealVal(k) * z3.Real(a)
+    return z3.simplify(t)
+
+
 def rad2deg(x):
     if not isinstance(x, SV):
         import math
 
         return math.degrees(x)
+    if x.ang is not None and all("const_" not in a for a in x.ang.lin):
+        return SV(deg_term(x.ang), x.ang.with_unit("deg"))
     ctx_ax_pi()
     r = SV(real(x.t) * 180 / PI)
     r.ang = x.ang.with_unit("deg") if x.ang is not None else None
@@ -240,10 +266,39 @@ def sqrt(x):
 
         return math.sqrt(x)
     cx = ctx()
-    t = real(x.t)
+    t = z3.simplify(real(x.t))
+    memo = cx.__dict__.setdefault("_sqrt", {})
+    key = t.sexpr()
+    if key in memo:
+        return SV(memo[key])
+    try:
+        from . import poly
+        p = poly.normal(t)
+        if not p:
+            memo[key] = z3.RealVal(0)
+            return SV(memo[key])
+        if list(p) == [()]:
+            from fractions import Fraction
+            import math
+            c = p[()]
+            if c >= 0:
+                rn, rd = math.isqrt(c.numerator), math.isqrt(c.denominator)
+                if rn * rn == c.numerator and rd * rd == c.denominator:
+                    memo[key] = z3.RealVal(Fraction(rn, rd))
+                    return SV(memo[key])
+    except Exception:
+        pass
+    # hypotheses may pin the radicand to 1 (e.g. a column of a rotation matrix): cheap entailment check
+    try:
+        if not cx.feasible(t != 1):
+            memo[key] = z3.RealVal(1)
+            return SV(memo[key])
+    except Exception:
+        pass
     cx.oblige("safe.sqrt-domain", t >= 0, kind="safe")
     r = cx.fresh("sqrt")
     cx.axiom("sqrt(x)=r: r>=0 and r*r=x", z3.And(r >= 0, r * r == t))
+    memo[key] = r
     return SV(r)
 
 
@@ -253,23 +308,26 @@ def arctan2(y, x):
     ty, tx = real(to_z3(y)), real(to_z3(x))
     name = f"atan2!{next(cx.counter)}"
     c, s = atom_cs(name)
-    rho = cx.fresh("rho")
-    t = z3.Real(name)
+    rho = sqrt(SV(tx * tx + ty * ty)).t
+    d = z3.Real(name)  # value in DEGREES
     cx.axiom(
-        "atan2(y,x)=t: rho=sqrt(x^2+y^2), rho*cos t=x, rho*sin t=y, t in (-pi,pi], atan2(0,0)=0, t=0 <=> y=0 and x>=0",
+        "atan2(y,x)=t: rho=sqrt(x^2+y^2), rho*cos t=x, rho*sin t=y, t in (-180,180] deg, atan2(0,0)=0, t=0 <=> y=0 and x>=0, sign(t)=sign(y)",
         z3.And(
-            rho >= 0,
-            rho * rho == tx * tx + ty * ty,
             rho * c == tx,
             rho * s == ty,
-            z3.Implies(z3.And(tx == 0, ty == 0), z3.And(c == 1, s == 0, t == 0)),
-            t > -PI,
-            t <= PI,
-            (t == 0) == z3.And(ty == 0, tx >= 0),
-            (c == 1) == (t == 0),
+            z3.Implies(z3.And(tx == 0, ty == 0), z3.And(c == 1, s == 0, d == 0)),
+            d > -180,
+            d <= 180,
+            (d == 0) == z3.And(ty == 0, tx >= 0),
+            (c == 1) == (d == 0),
+            (d > 0) == (ty > 0),
+            (d == 180) == z3.And(ty == 0, tx < 0),
+            (d == 90) == z3.And(tx == 0, ty > 0),
+            (d == -90) == z3.And(tx == 0, ty < 0),
+            z3.Implies(z3.And(ty >= 0, tx > 0), d < 90), z3.Implies(z3.And(ty > 0, tx < 0), d > 90),
         ),
     )
-    return SV(t, Ang({name: 1}, 0, "rad"))
+    return SV(d * PI / 180, Ang({name: 1}, 0, "rad"))
 
 
 def arccos(v):
@@ -283,15 +341,14 @@ def arccos(v):
     cx.oblige("safe.acos-domain", z3.And(tv >= -1, tv <= 1), kind="safe")
     name = f"acos!{next(cx.counter)}"
     c, s = atom_cs(name)
-    t = z3.Real(name)
+    d = z3.Real(name)  # value in DEGREES
     prev = getattr(cx, "_acos", [])
-    ax = [c == tv, s >= 0, t >= 0, t <= PI, (tv == 1) == (t == 0), (tv == -1) == (t == PI), (tv == 0) == (t == PI / 2),
-          (tv > 0) == (t < PI / 2)]
+    ax = [c == tv, s >= 0, d >= 0, d <= 180, (tv == 1) == (d == 0), (tv == -1) == (d == 180), (tv == 0) == (d == 90), (tv > 0) == (d < 90)]
     for pv, pt in prev:
-        ax += [(tv < pv) == (t > pt), (tv == pv) == (t == pt)]
-    cx._acos = prev + [(tv, t)]
-    cx.axiom("acos(v)=t: cos t=v, sin t>=0, t in [0,pi], strictly decreasing (instantiated pairwise), acos(1)=0, acos(0)=pi/2, acos(-1)=pi", z3.And(*ax))
-    return SV(t, Ang({name: 1}, 0, "rad"))
+        ax += [(tv < pv) == (d > pt), (tv == pv) == (d == pt)]
+    cx._acos = prev + [(tv, d)]
+    cx.axiom("acos(v)=t: cos t=v, sin t>=0, t in [0,180] deg, strictly decreasing (instantiated pairwise), acos(1)=0, acos(0)=90, acos(-1)=180", z3.And(*ax))
+    return SV(d * PI / 180, Ang({name: 1}, 0, "rad"))
 
 
 def exp(x):
